@@ -122,6 +122,10 @@ class _Canon(ast.NodeTransformer):
 
     def visit_If(self, node):
         self.generic_visit(node)
+        # N10: `if c: pass else: X`  ->  `if not c: X`
+        if node.orelse and all(isinstance(x, ast.Pass) for x in node.body):
+            t = node.test.operand if isinstance(node.test, ast.UnaryOp) and isinstance(node.test.op, ast.Not) else ast.UnaryOp(op=ast.Not(), operand=node.test)
+            node = _loc(ast.If(test=t, body=node.orelse, orelse=[]), node)
         b, o = node.body, node.orelse
         if len(b) == 1 and len(o) == 1:
             x, y = b[0], o[0]
@@ -156,6 +160,13 @@ class _Canon(ast.NodeTransformer):
 
     def visit_Assign(self, node):
         self.generic_visit(node)
+        # N9: `x = A if c else x`  ->  `if c: x = A`   (and the mirrored form)
+        if len(node.targets) == 1 and isinstance(node.targets[0], ast.Name) and isinstance(node.value, ast.IfExp):
+            v, tname = node.value, node.targets[0].id
+            if isinstance(v.orelse, ast.Name) and v.orelse.id == tname:
+                return _loc(ast.If(test=v.test, body=[_loc(ast.Assign(targets=[node.targets[0]], value=v.body), node)], orelse=[]), node)
+            if isinstance(v.body, ast.Name) and v.body.id == tname:
+                return _loc(ast.If(test=ast.UnaryOp(op=ast.Not(), operand=v.test), body=[_loc(ast.Assign(targets=[node.targets[0]], value=v.orelse), node)], orelse=[]), node)
         # N8: `a, b = x, y`  ->  `a = x; b = y` when no earlier target occurs in a later value (same evaluation order, same result)
         if len(node.targets) == 1 and isinstance(node.targets[0], (ast.Tuple, ast.List)) and isinstance(node.value, (ast.Tuple, ast.List)) \
                 and len(node.targets[0].elts) == len(node.value.elts) and all(isinstance(t, ast.Name) for t in node.targets[0].elts) \
